@@ -314,6 +314,24 @@ func c07Identity(c *vf.Case, r *vf.Rand) {
 	if n > 127 && !r.Chance(1, 4) {
 		n = r.Intn(300)
 	}
+	src := sonic.NewByteBuffer()
+	dst := sonic.NewByteBuffer()
+	if r.Chance(1, 3) {
+		// the frame is as large as the room in the destination buffer, give or take a few bytes (a fresh buffer, the 4096
+		// bytes a stream reserves, or a buffer with another frame still waiting in it)
+		switch r.Intn(3) {
+		case 1:
+			dst.Reserve(4096)
+		case 2:
+			dst.Reserve(4096)
+			backlog := r.Bytes(r.Range(1, 4000))
+			_, _ = dst.Write(backlog)
+			dst.Commit(len(backlog))
+		}
+		n = max(0, dst.Reserved()-r.Intn(20)+2)
+		c.Count("identity_roundtrips_with_a_frame_about_as_large_as_the_free_room", 1)
+	}
+	backlogLen := dst.ReadLen()
 	payload := r.Bytes(n)
 	f := websocket.NewFrame()
 	if r.Chance(1, 3) {
@@ -345,14 +363,16 @@ func c07Identity(c *vf.Case, r *vf.Rand) {
 	if masked {
 		f.MaskPayload()
 	}
-	src := sonic.NewByteBuffer()
-	dst := sonic.NewByteBuffer()
 	codec := websocket.NewFrameCodec(src, dst, 1<<20)
 	if err := codec.Encode(f, dst); err != nil {
 		c.Failf("encode-error", "Encode of a %d-byte frame returned %v", n, err)
 		return
 	}
-	wire := append([]byte(nil), dst.Data()...)
+	if dst.ReadLen() < backlogLen {
+		c.Failf("encoder-dropped-earlier-bytes", "the destination buffer held %d readable bytes before Encode and %d after", backlogLen, dst.ReadLen())
+		return
+	}
+	wire := append([]byte(nil), dst.Data()[backlogLen:]...)
 	p, st := wsref.Parse(wire, -1)
 	c.Logf("identity: fin=%v rsv=%v%v%v op=%d masked=%v len=%d -> %d wire bytes", fin, r1, r2, r3, op, masked, n, len(wire))
 	if st != wsref.OK || p.Size != len(wire) {
